@@ -6,3 +6,10 @@ an instance of that recorded finding; anything it does not recognise stays a new
 
 def always(case, viol):
     return True
+
+
+def meek_s2(case, viol):
+    "F04: the violation occurs under Meek-family options outside the supported stratum S1"
+    from .props.C08 import in_S1
+    c = case.get('case', case)
+    return c.get('rule') in ('meek', 'warren') and not in_S1(c)
